@@ -46,7 +46,7 @@ PROPERTIES = {
         assumptions=["pydantic runs BeforeValidator/PlainSerializer once per non-null occurrence under Optional/List (assumed)"],
     ),
     "C18": dict(
-        modules=["contracts.c18_names", "contracts.c04_modules"],
+        modules=["contracts.c18_names", "contracts.c04_modules", "contracts.c11_clients"],
         bounded=[_bounded.lazy("contracts.c18_names", "bounded_names"), _bounded.lazy("contracts.c18_names", "bounded_pairs"),
                  _bounded.lazy("contracts.c18_names", "bounded_wire_names"),
                  _bounded.lazy("contracts.e2e_variables", "bounded_variables"), _bounded.lazy("contracts.e2e_builder", "bounded_builder")],
